@@ -49,11 +49,11 @@ CONFIG = dict(
     modules=["SigModel.Props.C10"],
     theorems=["SigModel.ShapesClient." + t for t in [
         "C10_total", "C10_invalid_no_effect", "C10_bystanders", "C10_addressed_message_delivered",
-        "C10_forwarded_raw_valid", "C10_derefs_accounted", "C10_assertions_known", "C10_order_facts", "C10_raw_members_checked",
+        "C10_forwarded_raw_valid", "C10_derefs_accounted", "C10_assertions_known", "C10_media_tables_reviewed", "C10_order_facts", "C10_raw_members_checked",
         "checkValid_no_crash",
         "C10_total_needs_dialout_guard", "C10_total_needs_fixed_label", "C10_total_needs_nil_guard",
         "C10_total_needs_validation", "C10_wellformed_needs_raw_check"]],
-    generated=["ShapesClient"],
+    generated=["ShapesClient", "ShapesMedia"],
     harness=dict(pkg="signaling", test="TestVerifC10", timeout=1500),
     stats=c10_stats,
     nontrivial=c10_nontrivial,
